@@ -127,7 +127,7 @@ def run(ctx):
 
     # ---- R2 -----------------------------------------------------------------------------
     r2 = ctx.rule("C02.R2", "in ObjectReceiver::push_to_block the symbol is pushed (push_to_block2) before the close-object flag "
-                            "can end the object, and the flag only acts in state Receiving", "DOM")
+                            "can end the object, and the flag only acts in state Receiving on an object that is attached to an FDT", "DOM")
     f = prog.fn(OR + "::push_to_block")
     ctx.analysed(f.path)
     flow = Flow(f.body)
@@ -156,7 +156,18 @@ def run(ctx):
             r2.ok(key, "after push_to_block2, under state == Receiving", s.loc)
         else:
             r2.violation(key, "the close-object flag can abort the object %s" % ("before the packet's own symbol is consumed" if not after else "in a state other than Receiving"), s.loc)
-    r2.floor(1, "close_object abort site")
+        # an object that still waits for its FDT may be complete in memory (in-band FTI): the flag must not discard it - it cannot be
+        # delivered before the FDT is attached, and nothing is lost by waiting (the object timeout still releases it)
+        key2 = "push_to_block close_object only ends an object that is attached to an FDT"
+        attached = any(a[0] == "variant" and a[2] in ("Some", "None") and ((a[2] == "Some") == t) and
+                       re.search(r"\bself\.(fdt_instance_id|object_writer)\b", show(a[1], 200)) for (a, t) in fs)
+        if attached:
+            r2.ok(key2, "under fdt_instance_id / object_writer is Some", s.loc)
+        else:
+            r2.violation(key2, "the close-object flag ends an object in state Receiving whether or not an FDT has been attached: an object whose packets "
+                               "(in-band FTI) were all received before the first complete FDT is discarded although every symbol and, later, the FDT "
+                               "were received", s.loc)
+    r2.floor(2, "close_object abort site")
 
     r3 = ctx.rule("C02.R3", "every FecDecoder that stores symbols itself writes shards[esi] and counts the symbol only when the "
                             "slot is empty and esi is in range", "DOM")
